@@ -1,12 +1,14 @@
 // C12 harness: etl::chrono duration / time_point arithmetic and rounding casts vs std::chrono (libstdc++),
 // on the same case lines as the Lean driver (lean/Tetl/C12/Driver.lean).
 //
-//   <op> r1=<i32|i64|f64> p1=<k> [r2=<..> p2=<k>] [rs=<i32|i64>] a=<int>|as=[..] [b=<int>]
+//   <op> r1=<i16|i32|i64|u32|f64> p1=<k> [r2=<..> p2=<k>] [rs=<i32|i64>] a=<int>|as=[..] [b=<int>] [ns=1]
 //
 // p1/p2 index the period table below (the Lean driver has the same table).  A count is given as an
 // integer; for an f64 representation the count is `a / 8.0` (so that halves, quarters and eighths occur).
 // With a list argument the op is evaluated for every element and the results are printed as `[r1,r2,...]`.
 // Integer results are printed in decimal, f64 results as `x<16 hex digits>` (the IEEE-754 bit pattern).
+// ns=1: the std:: column of the line is `*` and std::chrono is not called (inputs on which libstdc++ has undefined behaviour,
+// or a result the standard does not sanction: the known findings of the property, see checks/props/c12.py).
 // rs is the type of the scalar operand of duration * rep, rep * duration, duration / rep, duration % rep (default: r1).
 // If one of the free functions of [time.duration.nonmember] / [time.point.nonmember] is not declared (a requires-expression
 // checks it) the harness still compiles and prints `missing` for that operation: a violation, not a build failure.
@@ -317,7 +319,10 @@ static void run1(Op1 op, ll a, ll b, int rs, Out& o)
     D1 const e1{mk<R1>(b)};
     R1 const rb = static_cast<R1>(b);            // a plain tick-count operand
     switch (op) {
-    case ABS: o.put(L::abs(d1).count()); return;
+    case ABS:          // [time.duration.alg]: abs participates only for a signed representation
+        if constexpr (std::is_signed_v<R1>) o.put(L::abs(d1).count());
+        else o.special = 3;
+        return;
     case NEG: o.put((-d1).count()); return;
     case POS: o.put((+d1).count()); return;
     case INC: { auto x = d1++; auto& y = ++d1; o.put(x.count()); o.put(y.count()); o.put(d1.count()); return; }
@@ -383,7 +388,7 @@ constexpr bool tp_enabled(int rc, int k1, int k2)
 {
     if (rc == 3) return (in_tp(k1) && in_tp(k2)) || k1 >= 10 || k2 >= 10;
     if (rc == 4 || rc <= 2) return in_sub(k1) && in_sub(k2);
-    return false;
+    return false;        // rc >= 5 (mixed double / integer, narrow and unsigned representations): no time_point instantiation
 }
 constexpr bool enabled(int rc, int k1, int k2)
 {
@@ -418,8 +423,8 @@ static void fill1(fn1* t, std::integer_sequence<int, I...>)
 }
 
 struct Tables {
-    fn2 t2[7][NPER * NPER]{};
-    fn1 t1[3][NPER]{};
+    fn2 t2[11][NPER * NPER]{};
+    fn1 t1[5][NPER]{};
 };
 
 template <typename L, int PART>
@@ -434,6 +439,13 @@ static void fill_part(Tables& t)
     fill2<L, double, double, 4, PART>(t.t2[4], seq2{});
     fill2<L, std::int64_t, double, 5, PART>(t.t2[5], seq2{});
     fill2<L, double, std::int64_t, 6, PART>(t.t2[6], seq2{});
+    // representations narrower than int and unsigned ones (the periods {milli, minute, 1001/30000} x themselves)
+    fill2<L, std::int16_t, std::int16_t, 7, PART>(t.t2[7], seq2{});
+    fill2<L, std::uint32_t, std::uint32_t, 8, PART>(t.t2[8], seq2{});
+    fill2<L, std::int64_t, std::int16_t, 9, PART>(t.t2[9], seq2{});
+    fill2<L, std::uint32_t, std::int32_t, 10, PART>(t.t2[10], seq2{});
+    fill1<L, std::int16_t, PART>(t.t1[3], seq1{});
+    fill1<L, std::uint32_t, PART>(t.t1[4], seq1{});
     fill1<L, std::int32_t, PART>(t.t1[0], seq1{});
     fill1<L, std::int64_t, PART>(t.t1[1], seq1{});
     fill1<L, double, PART>(t.t1[2], seq1{});
@@ -471,9 +483,13 @@ static int rc_of(std::string const& r1, std::string const& r2)
     if (r1 == "f64" && r2 == "f64") return 4;
     if (r1 == "i64" && r2 == "f64") return 5;
     if (r1 == "f64" && r2 == "i64") return 6;
+    if (r1 == "i16" && r2 == "i16") return 7;
+    if (r1 == "u32" && r2 == "u32") return 8;
+    if (r1 == "i64" && r2 == "i16") return 9;
+    if (r1 == "u32" && r2 == "i32") return 10;
     return -1;
 }
-static int r_of(std::string const& r) { return r == "i32" ? 0 : r == "i64" ? 1 : r == "f64" ? 2 : -1; }
+static int r_of(std::string const& r) { return r == "i32" ? 0 : r == "i64" ? 1 : r == "f64" ? 2 : r == "i16" ? 3 : r == "u32" ? 4 : -1; }
 
 // the named duration types: period of the tetl alias vs period of the std alias
 template <typename DE, typename DS>
@@ -516,6 +532,7 @@ int main(int argc, char** argv)
         else as.push_back(0);
         ll const b  = l.i("b", 0);
         ll const p1 = l.i("p1");
+        bool const ns = l.i("ns", 0) != 0;
         if (p1 < 0 || p1 >= NPER) return bad;
         std::string oe, os;
         auto emit = [&](std::string const& x, std::string const& y, bool first) {
@@ -535,16 +552,16 @@ int main(int argc, char** argv)
             for (ll a : as) {
                 Out x, y;
                 fe(o2, a, b, x);
-                fs(o2, a, b, y);
-                emit(fmt(x), fmt(y), first);
+                if (!ns) fs(o2, a, b, y);
+                emit(fmt(x), ns ? std::string("*") : fmt(y), first);
                 first = false;
             }
         } else {
             Op1 const o1 = op1_of(l.op);
             int const r  = r_of(l.str("r1"));
             if (o1 == OP1_BAD || r < 0 || te.t1[r][p1] == nullptr) return bad;
-            int const rs = l.has("rs") ? r_of(l.str("rs")) : r;
-            if (rs < 0 || (rs == 2) != (r == 2)) return bad;
+            int const rs = l.has("rs") ? r_of(l.str("rs")) : (r >= 3 ? 0 : r);
+            if (rs < 0 || rs > 2 || (rs == 2) != (r == 2)) return bad;
             bool first = true;
             for (ll a : as) {
                 Out x, y;
@@ -554,7 +571,8 @@ int main(int argc, char** argv)
                 first = false;
             }
         }
-        if (list) return "[" + oe + "]\t[" + os + "]";
+        if (ns) os = "*";          // the whole column is masked (checks/lib.py: `*` matches anything)
+        if (list) return "[" + oe + "]\t" + (ns ? os : "[" + os + "]");
         return oe + "\t" + os;
     });
 }
